@@ -1,5 +1,6 @@
 import SamplyModel.Lemmas.ChunkCache
 import SamplyModel.Lemmas.ChunkCacheIface
+import SamplyModel.Lemmas.ChunkCacheConc
 /-!
 # C13 — chunk-cached file access returns exactly the underlying file's bytes
 
@@ -246,6 +247,74 @@ theorem C13_driver_source (g : C13.Gen) :
     (g.badHi = 0 → SourceOk (C13.fileSlice g 0 g.len) (C13.src g)) :=
   ⟨C13.fileSlice_length g 0 g.len, C13.src_faithful g, C13.src_ok g⟩
 
+/-! ### Concurrent readers: every schedule of the calls' atomic sections
+
+`Model/ChunkCacheConc.lean` cuts each public call into its atomic sections at lock granularity
+(`read_bytes_at` = the `buffer_manager` critical section, then the lock-free `slice_from_location`;
+`read_bytes_at_until` = lock `string_cache` + lookup, [slice on a hit], the nested `buffer_manager` section,
+slice, `memchr` + insert + unlock; a thread that needs the `string_cache` mutex while another holds it is
+blocked). `CC.runSched c (Sys.init |F| progs) sched` runs N threads with programs `progs` (lists of calls)
+under an arbitrary schedule `sched` (any list of thread numbers: whichever thread is named runs its next
+section if it is enabled). No bound on the number of threads, the programs or the schedule. -/
+
+/-- **Results do not depend on concurrent readers.** Under every schedule of the atomic sections of any
+number of threads making arbitrary calls on one shared cache, every finished call of every thread returned
+exactly what `C13_step` allows for a call made alone: `CC.spec F src op` — a function of the file and the
+request only — or the source's own failure on the buffer the call had to read. The cache invariant holds in
+every reachable configuration, and every thread's calls (finished, in progress, to come) are its program in
+program order (no call is lost, repeated or reordered). -/
+theorem C13_interleaving (c : Cfg) (F : List UInt8) (hc : 0 < c.chunk) (hsz : F.length < U64)
+    (hf : Faithful F c.src) (progs : List (List Op)) (sched : List Nat) :
+    Inv F (runSched c (Sys.init F.length progs) sched).st ∧
+    (runSched c (Sys.init F.length progs) sched).threads.length = progs.length ∧
+    ∀ (k : Nat) (t : Thread), (runSched c (Sys.init F.length progs) sched).threads[k]? = some t →
+      progs[k]? = some t.calls ∧
+      ∀ op out, (op, out) ∈ t.done →
+        out = spec F c.src op ∨ (out = .err .source ∧ SrcFails c F op) := by
+  have h := runSched_ok c F hc hsz hf progs sched _ (sysOk_init c F progs)
+  refine ⟨h.inv, h.len, fun k t ht => ⟨h.calls k t ht, fun op out hm => ?_⟩⟩
+  exact (h.thr k t ht).done (op, out) hm
+
+/-- With a source that succeeds on in-bounds requests: under every schedule every finished call of every
+thread returned `CC.spec F src op`. Hence the outcome of a call is the same under any two schedules, with any
+other threads making any other calls, and the same as when the call is made alone on a fresh cache
+(`C13_history_independent`). -/
+theorem C13_interleaving_source_ok (c : Cfg) (F : List UInt8) (hc : 0 < c.chunk) (hsz : F.length < U64)
+    (hf : Faithful F c.src) (hok : SourceOk F c.src) (progs : List (List Op)) (sched : List Nat)
+    (k : Nat) (t : Thread) (ht : (runSched c (Sys.init F.length progs) sched).threads[k]? = some t)
+    (op : Op) (out : Out (List UInt8)) (hm : (op, out) ∈ t.done) :
+    out = spec F c.src op ∧ out = (step c (St.init F.length) op).2 := by
+  have key : out = spec F c.src op := by
+    rcases (C13_interleaving c F hc hsz hf progs sched).2.2 k t ht |>.2 op out hm with h | ⟨_, hfail⟩
+    · exact h
+    · exact absurd hfail (srcFails_not_ok hok _)
+  exact ⟨key, by rw [key]; exact ((C13_history_independent c F hc hsz hf hok [] [] op).1).symm⟩
+
+/-- No call of any thread panics under any schedule (so no mutex is ever poisoned), with any faithful source. -/
+theorem C13_interleaving_no_panic (c : Cfg) (F : List UInt8) (hc : 0 < c.chunk) (hsz : F.length < U64)
+    (hf : Faithful F c.src) (progs : List (List Op)) (sched : List Nat)
+    (k : Nat) (t : Thread) (ht : (runSched c (Sys.init F.length progs) sched).threads[k]? = some t)
+    (op : Op) (out : Out (List UInt8)) (hm : (op, out) ∈ t.done) : out ≠ .panic :=
+  good_not_panic ((C13_interleaving c F hc hsz hf progs sched).2.2 k t ht |>.2 op out hm)
+
+/-- Deadlock freedom at lock granularity: in every reachable configuration, unless every thread has finished
+its program, some thread is enabled (the owner of the `string_cache` mutex never waits for anything: the
+`buffer_manager` mutex is only ever taken inside it, never the other way round). -/
+theorem C13_interleaving_deadlock_free (c : Cfg) (F : List UInt8) (hc : 0 < c.chunk) (hsz : F.length < U64)
+    (hf : Faithful F c.src) (progs : List (List Op)) (sched : List Nat)
+    (j : Nat) (u : Thread) (hj : (runSched c (Sys.init F.length progs) sched).threads[j]? = some u)
+    (hu : u.finished = false) :
+    ∃ k, (runSched c (Sys.init F.length progs) sched).enabled c k = true :=
+  sysOk_progress c F progs _ (runSched_ok c F hc hsz hf progs sched _ (sysOk_init c F progs)) j u hj hu
+
+/-- The section model refines to the sequential model: the sections of one call run without another thread
+in between are exactly `CC.step` — the function that the correspondence run compares with the real code, call
+by call — on the state and on the outcome, and the lock is free again afterwards. -/
+theorem C13_sections_compose (c : Cfg) (st : St) (op : Op) (hnp : (step c st op).2 ≠ .panic) :
+    runSched c (Sys.solo st ⟨.idle, [op], []⟩) [0, 0, 0, 0] =
+      Sys.solo (step c st op).1 ⟨.idle, [], [(op, (step c st op).2)]⟩ :=
+  sections_compose c st op hnp
+
 /-! ### The repaired defects: why the pre-fix code does not satisfy the theorems above
 
 `readBytesAtUntilLegacy` is the code before commits 22b09fd5 / 586a1eab. Concrete 20-byte file, chunk size 8,
@@ -312,4 +381,20 @@ example :
     (readBytesAtUntil c (St.init 20) ⟨10, 20⟩ 0).2 = .err .source ∧
     (readBytesAtUntil c (St.init 20) ⟨10, 14⟩ 0).2 = .ok [11, 12] ∧
     (readBytesAtUntil c (readBytesAtUntil c (St.init 20) ⟨10, 14⟩ 0).1 ⟨10, 20⟩ 0).2 = .ok [11, 12] := by
+  decide
+
+/-- a real interleaving (chunk size 8, the 20-byte file): thread 0 makes a delimited read `4..20` (string at
+4, delimiter at 12) and a range read; thread 1 reads `[6,11)` and then the same delimited range. Schedule:
+T0 locks the string cache and misses; T1 runs its `buffer_manager` section (buffer 0 = `[0,16)`); T0's nested
+`get_range_location` finds its start cached in T1's buffer and reads buffer 1 = `[4,20)` (`start_is_cached`);
+T1 slices; T1 is blocked on the string-cache lock (its step is a no-op); T0 slices, finishes (inserting the
+string) and releases; T1 gets the lock and hits the cache; T0's range read is served from buffer 1. All four
+outcomes are the file's bytes. -/
+example :
+    let s := runSched C13_legacyCfg (Sys.init 20 [[.until_ ⟨4, 20⟩ 0, .read 18 2], [.read 6 5, .until_ ⟨4, 20⟩ 0]])
+      [0, 1, 0, 1, 1, 0, 0, 1, 1, 0, 0]
+    s.threads.map (·.done) =
+      [[(.read 18 2, .ok [19, 20]), (.until_ ⟨4, 20⟩ 0, .ok [5, 6, 7, 8, 9, 10, 11, 12])],
+       [(.until_ ⟨4, 20⟩ 0, .ok [5, 6, 7, 8, 9, 10, 11, 12]), (.read 6 5, .ok [7, 8, 9, 10, 11])]] ∧
+    s.lock = none ∧ s.st.buffers.length = 2 ∧ s.threads.all (·.finished) = true := by
   decide
